@@ -155,7 +155,7 @@ class CallFunction(Node):
             oplist: List[str] = []
             for s in pars.operands:
                 oplist.append(str(s.generate_js(indentation, factory_method)))
-                nm = 'this.' + s.name
+                nm = 'this.' + str(s.name)
     
             oplist.pop()
             oplist.reverse()
